@@ -14,11 +14,11 @@ Section AddrTextProofs.
   Variable blake2b : nat -> list N -> list N.
   Variable valid_pub : N -> list N -> bool.
   Variable crc16_xmodem : list N -> list N.
-  Variable bech32_enc : list N -> list N -> list N.
+  Variable bech32_enc : list N -> list N -> res (list N).
   Variable bech32_dec : list N -> list N -> res (list N).
   Variable segwit_enc : list N -> N -> list N -> res (list N).
   Variable segwit_dec : list N -> list N -> res (N * list N).
-  Variable cash_enc : list N -> list N -> list N -> list N.
+  Variable cash_enc : list N -> list N -> list N -> res (list N).
   Variable cash_dec : list N -> list N -> res (list N * list N).
   Variable b32_enc_nopad : option (list N) -> list N -> list N.
   Variable b32_dec : option (list N) -> list N -> res (list N).
@@ -38,10 +38,9 @@ Section AddrTextProofs.
 
   (* codec laws: decoding what the encoder produced returns the data (discharged by the codec
      theorems where these pipelines are instantiated) *)
-  Variable hrp_ok : list N -> Prop.
-  Hypothesis bech32_rt : forall hrp d, hrp_ok hrp -> bytes_ok d -> bech32_dec hrp (bech32_enc hrp d) = Ok d.
+  Hypothesis bech32_rt : forall hrp d s, bech32_enc hrp d = Ok s -> bech32_dec hrp s = Ok d.
   Hypothesis segwit_rt : forall hrp v p s, segwit_enc hrp v p = Ok s -> segwit_dec hrp s = Ok (v, p).
-  Hypothesis cash_rt : forall hrp nv d, hrp_ok hrp -> bytes_ok nv -> bytes_ok d -> cash_dec hrp (cash_enc hrp nv d) = Ok (nv, d).
+  Hypothesis cash_rt : forall hrp nv d s, cash_enc hrp nv d = Ok s -> cash_dec hrp s = Ok (nv, d).
   Variable alph_ok : option (list N) -> Prop.
   Hypothesis b32_rt : forall al d, alph_ok al -> bytes_ok d -> b32_dec al (b32_enc_nopad al d) = Ok d.
   Hypothesis ss58_rt : forall d f s, ss58_enc d f = Ok s -> ss58_dec s = Ok (f, d).
@@ -51,38 +50,40 @@ Section AddrTextProofs.
   Lemma h160_len x : length (h160 x) = hash160_len.
   Proof. unfold hash160. rewrite rip_len. reflexivity. Qed.
 
-  Lemma bech32_fixed_rt hrp d n : hrp_ok hrp -> bytes_ok d -> length d = n ->
-    bech32_fixed_decode bech32_dec hrp n (bech32_enc hrp d) = Ok d.
+  Lemma bech32_fixed_rt hrp d n s : bech32_enc hrp d = Ok s -> length d = n ->
+    bech32_fixed_decode bech32_dec hrp n s = Ok d.
   Proof.
-    intros Hh Hd Hl. unfold bech32_fixed_decode. rewrite bech32_rt by auto. rewrite c2v_ok. cbn [bind Ok].
+    intros E Hl. unfold bech32_fixed_decode. rewrite (bech32_rt _ _ _ E). rewrite c2v_ok. cbn [bind Ok].
     rewrite validate_length_ok by exact Hl. reflexivity.
   Qed.
 
-  Theorem atom_decode_encode hrp pub : hrp_ok hrp ->
-    atom_decode bech32_dec hrp (atom_encode sha256 ripemd160 bech32_enc hrp pub) = Ok (h160 pub).
-  Proof. intros. apply bech32_fixed_rt; auto; [unfold hash160; apply rip_ok|apply h160_len]. Qed.
+  Theorem atom_decode_encode hrp pub s :
+    atom_encode sha256 ripemd160 bech32_enc hrp pub = Ok s -> atom_decode bech32_dec hrp s = Ok (h160 pub).
+  Proof. intros E. eapply bech32_fixed_rt; [exact E|apply h160_len]. Qed.
 
-  Theorem avax_decode_encode prefix hrp pub : hrp_ok hrp ->
-    avax_decode bech32_dec prefix hrp (avax_encode sha256 ripemd160 bech32_enc prefix hrp pub) = Ok (h160 pub).
+  Theorem avax_decode_encode prefix hrp pub s :
+    avax_encode sha256 ripemd160 bech32_enc prefix hrp pub = Ok s ->
+    avax_decode bech32_dec prefix hrp s = Ok (h160 pub).
   Proof.
-    intros. unfold avax_decode, avax_encode. rewrite remove_prefix_app. cbn [bind Ok].
-    apply atom_decode_encode; auto.
+    unfold avax_encode, avax_decode.
+    destruct (atom_encode sha256 ripemd160 bech32_enc hrp pub) as [a|] eqn:E; cbn [rmap]; [|discriminate].
+    intros H; inversion H; subst s. rewrite remove_prefix_app. cbn [bind Ok].
+    apply atom_decode_encode; exact E.
   Qed.
 
-  Theorem egld_decode_encode pub : hrp_ok egld_hrp -> bytes_ok pub ->
+  Theorem egld_decode_encode pub s : egld_encode bech32_enc pub = Ok s ->
     length pub = (ed25519_compr_len - 1)%nat -> valid_pub 2 pub = true ->
-    egld_decode valid_pub bech32_dec (egld_encode bech32_enc pub) = Ok pub.
+    egld_decode valid_pub bech32_dec s = Ok pub.
   Proof.
-    intros Hh Hb Hl Hv. unfold egld_decode, egld_encode. rewrite bech32_fixed_rt by auto.
+    intros E Hl Hv. unfold egld_decode. rewrite (bech32_fixed_rt _ _ _ _ E Hl).
     cbn [bind Ok]. rewrite Hv. reflexivity.
   Qed.
 
-  Theorem zil_decode_encode pub : hrp_ok zil_hrp ->
-    zil_decode bech32_dec (zil_encode sha256 bech32_enc pub) = Ok (take_last zil_hash_len (sha256 pub)).
+  Theorem zil_decode_encode pub s : zil_encode sha256 bech32_enc pub = Ok s ->
+    zil_decode bech32_dec s = Ok (take_last zil_hash_len (sha256 pub)).
   Proof.
-    intros Hh. unfold zil_decode, zil_encode. apply bech32_fixed_rt; auto.
-    - apply bytes_ok_skipn, sha_ok.
-    - unfold take_last. rewrite skipn_length, sha_len. reflexivity.
+    intros E. unfold zil_decode. eapply bech32_fixed_rt; [exact E|].
+    unfold take_last. rewrite skipn_length, sha_len. reflexivity.
   Qed.
 
   (* Inj / Okex / One: the payload is the 20 Ethereum address bytes *)
@@ -99,24 +100,23 @@ Section AddrTextProofs.
     - rewrite (dg_len keccak256 kec_len), to_hex_length. unfold D. rewrite skipn_length, kec_len. simpl. lia.
   Qed.
 
-  Theorem inj_decode_encode pub_u s : hrp_ok inj_hrp ->
+  Theorem inj_decode_encode pub_u s :
     ethb32_encode keccak256 bech32_enc inj_hrp pub_u = Ok s ->
     inj_decode bech32_dec s = Ok (skipn 12 (keccak256 (tl pub_u))).
   Proof.
-    intros Hh. unfold ethb32_encode. rewrite eth_bytes_spec. cbn [bind Ok]. intros E; inversion E; subst s.
-    unfold inj_decode. apply bech32_fixed_rt; auto.
-    - apply bytes_ok_skipn, kec_ok.
-    - rewrite skipn_length, kec_len. reflexivity.
+    unfold ethb32_encode. rewrite eth_bytes_spec. cbn [bind Ok]. intros E.
+    unfold inj_decode. eapply bech32_fixed_rt; [exact E|].
+    rewrite skipn_length, kec_len. reflexivity.
   Qed.
 
-  Theorem ethb32_decode_encode hrp pub_u s : hrp_ok hrp ->
+  Theorem ethb32_decode_encode hrp pub_u s :
     ethb32_encode keccak256 bech32_enc hrp pub_u = Ok s ->
     ethb32_decode keccak256 bech32_dec hrp s = Ok (skipn 12 (keccak256 (tl pub_u))).
   Proof.
-    intros Hh. unfold ethb32_encode. rewrite eth_bytes_spec. cbn [bind Ok]. intros E; inversion E; subst s.
-    set (D := skipn 12 (keccak256 (tl pub_u))).
+    unfold ethb32_encode. rewrite eth_bytes_spec. cbn [bind Ok]. intros E.
+    set (D := skipn 12 (keccak256 (tl pub_u))) in *.
     assert (HD : bytes_ok D) by (apply bytes_ok_skipn, kec_ok).
-    unfold ethb32_decode. rewrite bech32_rt by auto. rewrite c2v_ok. cbn [bind Ok].
+    unfold ethb32_decode. rewrite (bech32_rt _ _ _ E). rewrite c2v_ok. cbn [bind Ok].
     unfold eth_decode. rewrite remove_prefix_app. cbn [bind Ok].
     assert (LD : length (to_hex D) = eth_addr_len).
     { rewrite to_hex_length. subst D. rewrite skipn_length, kec_len. reflexivity. }
@@ -141,22 +141,21 @@ Section AddrTextProofs.
     cbn [bind Ok]. rewrite validate_length_ok by exact L. cbn [bind Ok]. rewrite N.eqb_refl. reflexivity.
   Qed.
 
-  Theorem bch_p2pkh_decode_encode hrp nv pub : hrp_ok hrp -> bytes_ok nv ->
-    bch_decode cash_dec hrp nv (bch_p2pkh_encode sha256 ripemd160 cash_enc hrp nv pub) = Ok (h160 pub).
+  Theorem bch_p2pkh_decode_encode hrp nv pub s :
+    bch_p2pkh_encode sha256 ripemd160 cash_enc hrp nv pub = Ok s ->
+    bch_decode cash_dec hrp nv s = Ok (h160 pub).
   Proof.
-    intros Hh Hn. unfold bch_decode, bch_p2pkh_encode.
-    rewrite cash_rt; auto; [|unfold hash160; apply rip_ok]. rewrite c2v_ok.
+    unfold bch_decode, bch_p2pkh_encode. intros E. rewrite (cash_rt _ _ _ _ E). rewrite c2v_ok.
     cbn [bind Ok]. rewrite list_eqb_refl. cbn [negb]. rewrite validate_length_ok by apply h160_len. reflexivity.
   Qed.
 
-  Theorem bch_p2sh_decode_encode hrp nv pub : hrp_ok hrp -> bytes_ok nv ->
-    bch_decode cash_dec hrp nv (bch_p2sh_encode sha256 ripemd160 cash_enc hrp nv pub)
-    = Ok (p2sh_script_hash sha256 ripemd160 pub).
+  Theorem bch_p2sh_decode_encode hrp nv pub s :
+    bch_p2sh_encode sha256 ripemd160 cash_enc hrp nv pub = Ok s ->
+    bch_decode cash_dec hrp nv s = Ok (p2sh_script_hash sha256 ripemd160 pub).
   Proof.
-    intros Hh Hn. unfold bch_decode, bch_p2sh_encode. rewrite cash_rt; auto.
-    - rewrite c2v_ok. cbn [bind Ok]. rewrite list_eqb_refl. cbn [negb].
-      rewrite validate_length_ok by (unfold p2sh_script_hash; apply h160_len). reflexivity.
-    - unfold p2sh_script_hash, hash160. apply rip_ok.
+    unfold bch_decode, bch_p2sh_encode. intros E. rewrite (cash_rt _ _ _ _ E). rewrite c2v_ok.
+    cbn [bind Ok]. rewrite list_eqb_refl. cbn [negb].
+    rewrite validate_length_ok by (unfold p2sh_script_hash; apply h160_len). reflexivity.
   Qed.
 
   (* Base32 family *)
